@@ -35,7 +35,7 @@ void harness(void)
 	VERIF_ASSUME(n <= NB);
 	VERIF_ASSUME(seq0 < 0xFFFFFF00u);
 	for (i = 0; i < 4; ++i)
-		c09_bp_block(&g_blk[i]);
+		c09_bp_block(BLK(i));
 	c09_bp_block(&g_cur);
 	c09_bp_block(&g_frag);
 	g_inpool = n;
